@@ -58,7 +58,7 @@ func sharedWriteObligations(c *Ctx, rule, scopeName string, fns map[*ssa.Functio
 
 func checkC16(c *Ctx) {
 	r, t := c.R, c.T
-	r.Explanation = "Decides the write-discipline half of race freedom for all schedules: (1) RUN-WRITES: no function reachable from Script.Run/RefRun and the 23 registered builtins (v1), nor from runtimev2 Script.Run and the GetParam* helpers (v2), writes (field store, element store, map update, delete, copy) through any address that passes through a type of pkg/ast, runtime.Script or the v2 script/function descriptors, whatever its root, and none writes a package-level variable; (2) LOAD-WRITES / PARSE-WRITES: functions reachable from the load entry points and from ParsePipeline write no package-level variable (sync.Pool method calls excepted); in the parse scope, writes through pkg/ast types have as root an object allocated by the writing function or a node parameter handed between constructors (the tree under construction); (3) ANNOTATIONS: the load-time caches on the tree (CallExpr.Grok/Re/PrivateData/ParamNormalized, Script.CallRef) are written only by functions of the load scope and by none of the run scopes; (4) POOL-NO-ESCAPE: the pooled task obtained in Run/RefRun/Check is stored nowhere but in locals and handed to no goroutine; (5) every dynamic call site in the scopes is bound (builtin/checker registry, lexer state functions) or listed. Reachability uses explicitly resolved callees (static calls, in-module interface implementations, registry values), not CHA, because FuncsMap and FuncsCheckMap share one Go signature. Not decided: races inside third-party code (grok, zap, time zone cache), equality of concurrent and sequential results."
+	r.Explanation = "Decides the write-discipline half of race freedom for all schedules: (1) RUN-WRITES: no function reachable from Script.Run/RefRun and the 23 registered builtins (v1), nor from runtimev2 Script.Run and the GetParam* helpers (v2), writes (field store, element store, map update, delete, copy) through any address that passes through a type of pkg/ast, runtime.Script or the v2 script/function descriptors, whatever its root, and none writes a package-level variable; (2) LOAD-WRITES / PARSE-WRITES: functions reachable from the load entry points and from ParsePipeline write no package-level variable (sync.Pool method calls excepted); in the parse scope, writes through pkg/ast types have as root an object allocated by the writing function or a node parameter handed between constructors (the tree under construction); (3) ANNOTATIONS: the load-time caches on the tree (CallExpr.Grok/Re/PrivateData/ParamNormalized, Script.CallRef) are written only by functions of the load scope and by none of the run scopes; (4) POOL-NO-ESCAPE: the pooled task obtained in Run/RefRun/Check is stored nowhere but in locals and handed to no goroutine; (4b) USE-AFTER-RELEASE: after a non-deferred release of a pooled object (sync.Pool.Put or a Put* helper) no later instruction of that function uses the object or an address derived from it; (5) every dynamic call site in the scopes is bound (builtin/checker registry, lexer state functions) or listed. Reachability uses explicitly resolved callees (static calls, in-module interface implementations, registry values), not CHA, because FuncsMap and FuncsCheckMap share one Go signature. Not decided: races inside third-party code (grok, zap, time zone cache), equality of concurrent and sequential results."
 	r.Trusted = []string{"github.com/GuanceCloud/grok (*GrokRegexp is used read-only at run time)", "go.uber.org/zap loggers", "time.LoadLocation cache", "spf13/cast", "sync.Pool"}
 	run := runScope(t)
 	v2, v2un := v2Scope(t)
@@ -154,6 +154,9 @@ func checkC16(c *Ctx) {
 	}
 	r.FloorN("annotation writers", nAnn, 3)
 
+	// no use of a pooled object after it was released
+	useAfterRelease(c, "USE-AFTER-RELEASE", []string{pParser, pRT, pRT2, pEngine, pFuncs, pInput})
+
 	// pooled task does not escape
 	for _, spec := range []struct{ pkg, typ, m string }{{pRT, "Script", "Run"}, {pRT, "Script", "RefRun"}, {pRT, "Script", "Check"}} {
 		fn := t.Method(spec.pkg, spec.typ, spec.m)
@@ -203,4 +206,111 @@ func onlyLocalUses(a *ssa.Alloc) bool {
 		}
 	}
 	return true
+}
+
+// isReleaseCall: a call that hands a pooled object back: (*sync.Pool).Put(pool, x) or an in-module Put* helper
+// whose body does that with its parameter. Returns the released value.
+func releasedValue(call *ssa.CallCommon) ssa.Value {
+	f := call.StaticCallee()
+	if f == nil {
+		return nil
+	}
+	if f.Name() == "Put" && len(call.Args) == 2 {
+		if g, ok := call.Args[0].(*ssa.Global); ok && strings.HasSuffix(g.Name(), "Pool") {
+			return unwrapIface(call.Args[1])
+		}
+	}
+	if inModule(f) && strings.HasPrefix(f.Name(), "Put") && len(call.Args) == 1 {
+		// helper that puts its parameter into a pool
+		puts := false
+		allInstrs(f, func(in ssa.Instruction) {
+			if c, ok := in.(*ssa.Call); ok && c.Call.StaticCallee() != nil && c.Call.StaticCallee().Name() == "Put" && len(c.Call.Args) == 2 {
+				if unwrapIface(c.Call.Args[1]) == ssa.Value(f.Params[0]) {
+					puts = true
+				}
+			}
+		})
+		if puts {
+			return call.Args[0]
+		}
+	}
+	return nil
+}
+
+// useAfterRelease: in every function of the given packages, after a (non-deferred) release of a pooled object no
+// instruction may use the object or an address derived from it — another goroutine may own it by then.
+func useAfterRelease(c *Ctx, rule string, pkgs []string) {
+	r, t := c.R, c.T
+	n := 0
+	for _, pp := range pkgs {
+		for _, f := range t.PkgFuncs(pp) {
+			allInstrs(f, func(in ssa.Instruction) {
+				call, ok := in.(*ssa.Call) // deferred releases are *ssa.Defer and run at exit
+				if !ok {
+					return
+				}
+				obj := releasedValue(&call.Call)
+				if obj == nil {
+					return
+				}
+				n++
+				// values derived from obj: obj itself and address computations based on it
+				derived := map[ssa.Value]bool{obj: true}
+				changed := true
+				for changed {
+					changed = false
+					allInstrs(f, func(i2 ssa.Instruction) {
+						v, ok := i2.(ssa.Value)
+						if !ok || derived[v] {
+							return
+						}
+						switch x := i2.(type) {
+						case *ssa.FieldAddr:
+							if derived[x.X] {
+								derived[v] = true
+								changed = true
+							}
+						case *ssa.IndexAddr:
+							if derived[x.X] {
+								derived[v] = true
+								changed = true
+							}
+						case *ssa.MakeInterface:
+							if derived[x.X] {
+								derived[v] = true
+								changed = true
+							}
+						case *ssa.Phi:
+							for _, e := range x.Edges {
+								if derived[e] {
+									derived[v] = true
+									changed = true
+								}
+							}
+						}
+					})
+				}
+				var bad []string
+				allInstrs(f, func(i2 ssa.Instruction) {
+					if i2 == in || !reachableFrom(in, i2) {
+						return
+					}
+					if _, isDbg := i2.(*ssa.DebugRef); isDbg {
+						return
+					}
+					for _, op := range i2.Operands(nil) {
+						if op != nil && *op != nil && derived[*op] {
+							if _, isAddr := i2.(*ssa.FieldAddr); isAddr {
+								continue // computing an address is harmless; its use is what counts
+							}
+							bad = append(bad, fmt.Sprintf("%s uses %s at %s", strings.TrimPrefix(fmt.Sprintf("%T", i2), "*ssa."), path(*op), t.Pos(i2.Pos())))
+						}
+					}
+				})
+				r.Ob(rule, fmt.Sprintf("%s release #%d of %s", relName(f), ordinalCall(f, call), path(obj)), t.Pos(call.Pos()), len(bad) == 0,
+					"after an object went back to its pool another goroutine may already own and re-initialise it; later uses here: "+strings.Join(bad, "; "))
+			})
+		}
+	}
+	r.FloorN("non-deferred release sites inspected", n, 1)
 }
